@@ -153,7 +153,8 @@ def same(a, b):
 
 
 def _pure(callee):
-    return callee.endswith(("::len", "::as_value", "::is_empty", "::decoded_len", "::leading_ones", "::as_slice", "::deref"))
+    return callee.endswith(("::len", "::as_value", "::is_empty", "::decoded_len", "::leading_ones", "::as_slice", "::deref",
+                            "::as_bytes", "::encoded_len"))
 
 
 class LowerBound:
